@@ -66,6 +66,10 @@ type Model struct {
 	// inode dir was told about the removal or replacement of an entry naming
 	// inode ino at or before step upto.
 	ParentReported func(dir uint64, ino uint64, upto int) bool
+	// Uncertain says whether a record of watch wd was dropped by a queue
+	// overflow at or before step upto (the announced, permitted loss): what the
+	// Watcher believes about that watch may then legitimately lag reality.
+	Uncertain func(wd int32, upto int) bool
 }
 
 type MEvent struct {
@@ -107,7 +111,7 @@ func newModel(recurse bool) *Model {
 }
 
 func (m *Model) clone() *Model {
-	n := &Model{Closed: m.Closed, Recurse: m.Recurse, FindAdd: m.FindAdd, ParentReported: m.ParentReported}
+	n := &Model{Closed: m.Closed, Recurse: m.Recurse, FindAdd: m.FindAdd, ParentReported: m.ParentReported, Uncertain: m.Uncertain}
 	n.W = append([]mWatch(nil), m.W...)
 	n.Cookies = make(map[uint32]string, len(m.Cookies))
 	for k, v := range m.Cookies {
@@ -288,12 +292,19 @@ func (m *Model) Feed(r *sinot.Record) []MEvent {
 	if r.Mask&unix.IN_DELETE_SELF != 0 {
 		m.end(i, -1, r.Step)
 		// "reporting Remove unless the watched parent directory already did":
-		// optional iff a live watch on the lexical parent exists and the kernel
-		// told that directory about the removal or replacement of an entry of
-		// this file (under whatever name: the statement speaks of the file).
-		if j := m.bySpelling(filepath.Dir(w.Spelling)); j >= 0 && m.ParentReported != nil &&
-			m.ParentReported(m.W[j].Ino, w.Ino, r.Step) {
+		// optional iff the kernel told some watched directory about the removal
+		// or replacement of an entry of this file (under whatever name: the
+		// statement speaks of the file).
+		if m.Uncertain != nil && m.Uncertain(r.Wd, r.Step) {
 			ev.Optional = true
+		}
+		if m.ParentReported != nil {
+			for j := range m.W {
+				if m.ParentReported(m.W[j].Ino, w.Ino, r.Step) {
+					ev.Optional = true
+					break
+				}
+			}
 		}
 	}
 	if r.Mask&unix.IN_MOVE_SELF != 0 {
